@@ -404,9 +404,15 @@ func TestVerif_C29_c(t *testing.T) {
 		if !j.demand {
 			tag = "recorded"
 		}
-		r.Class(fmt.Sprintf("c/%s/%s/%s/%s/%s", validators[j.vi].name, j.mode, a.Kind, tag, kind))
+		// Ledger.Validate verifies signatures concurrently with evaluation, so WHICH error comes back
+		// first is scheduling-dependent there (the verdict is not): classify by verdict only.
+		ckind := kind
+		if j.vi == 0 && err != nil {
+			ckind = "rejected"
+		}
+		r.Class(fmt.Sprintf("c/%s/%s/%s/%s/%s", validators[j.vi].name, j.mode, a.Kind, tag, ckind))
 		if ji%401 == 0 {
-			r.Sample(map[string]any{"part": "c", "validator": validators[j.vi].name, "header": j.mode, "alteration": a.Name, "outcome": kind})
+			r.Sample(map[string]any{"part": "c", "validator": validators[j.vi].name, "header": j.mode, "alteration": a.Name, "outcome": ckind})
 		}
 		if j.demand && err == nil {
 			hd := "the honest header left untouched"
